@@ -74,7 +74,8 @@ func NewOut(prop string) *Out {
 		fmt.Fprintln(os.Stderr, err)
 		os.Exit(2)
 	}
-	return &Out{f: f, w: bufio.NewWriterSize(f, 1<<20), p: prop}
+	base, _ := strconv.Atoi(os.Getenv("VERIF_CASE_BASE")) // an additional harness of the same check numbers its cases from here
+	return &Out{f: f, w: bufio.NewWriterSize(f, 1<<20), p: prop, n: base}
 }
 func (o *Out) Emit(in, impl any) {
 	o.mu.Lock()
@@ -111,6 +112,12 @@ func Corpus() []json.RawMessage {
 			In json.RawMessage `json:"in"`
 		}
 		if json.Unmarshal(sc.Bytes(), &obj) == nil && len(obj.In) > 0 {
+			var tag struct {
+				Tag string `json:"tag"`
+			}
+			if json.Unmarshal(obj.In, &tag) == nil && tag.Tag == "nodewire" {
+				continue // a whole-node scenario: re-run by the nodewire harness, not by this one
+			}
 			res = append(res, obj.In)
 		}
 	}
